@@ -204,7 +204,11 @@ pub fn check_constructed(case: &Case, how: u64, st: &mut Stats) {
         .iter()
         .map(|o| {
             let ident = o.w == [[1, 0], [0, 1]] && o.t2 == [0, 0];
-            let a = Affine { m: [[o.w[0][0] as f64, o.w[0][1] as f64], [o.w[1][0] as f64, o.w[1][1] as f64]], t: [o.t2[0] as f64 / 2., o.t2[1] as f64 / 2.] };
+            // (an operation is the same operation with any whole lattice vector added to its
+            // translation: other settings and unreduced tables write -3/2 for 1/2)
+            let (sx, sy) = if how >= 6 { ((((how / 6) % 7) as f64) - 3., (((how / 42) % 7) as f64) - 3.) } else { (0., 0.) };
+            let a = Affine { m: [[o.w[0][0] as f64, o.w[0][1] as f64], [o.w[1][0] as f64, o.w[1][1] as f64]], t: [o.t2[0] as f64 / 2. + sx, o.t2[1] as f64 / 2. + sy] };
+            let ident = ident && sx == 0. && sy == 0.;
             match (ident, how % 3) {
                 (true, 0) => Transform2::identity(),
                 (true, 1) => Transform2::new(0., (0., 0.)),
@@ -364,7 +368,7 @@ pub fn check_history(group: &str, tpl: &Value, hist_seed: u64, ops: usize, st: &
 }
 
 pub fn run(ctx: &Ctx) {
-    ctx.set_rule("states built from a JSON template with exact site coordinates: x,y uniform in [-1/2,1/2), exactly +-1/2, 0, +-1/4, 1..4 ulps either side of +-1/2, tiny/denormal negatives; orientation incl. 0, pi, 2pi; relative_positions() matched one-to-one to the ITA operations (linear part W.Rot(phi) to 1e-15, translation congruent mod 1 to W(x,y)+w to 1e-12, inside [-1/2,1/2)); plus equivalence of (x+-k, y+-k, phi+-2pi) to 1e-9 on the torus; plus histories on ONE reused state: 60 random set / reset / sampled-set operations through its own basis handles, placements checked against the coordinates the site holds after each; plus sites whose operations were built through the API (Transform2::identity(), ::new, From<Matrix3>) into hand-made Wyckoff sites, coordinates set through the handles or through JSON (also outside the cell); plus the iterator protocol: positions() / relative_positions() / cartesian_positions() driven by random scripts of next, nth, take, size_hint and then count / last / step_by / skip / fold / collect, compared element for element with the collected sequence; non-trivial = group order >= 2 or a coordinate on/next to a face or special position; distinct by exact coordinate bits");
+    ctx.set_rule("states built from a JSON template with exact site coordinates: x,y uniform in [-1/2,1/2), exactly +-1/2, 0, +-1/4, 1..4 ulps either side of +-1/2, tiny/denormal negatives; orientation incl. 0, pi, 2pi; relative_positions() matched one-to-one to the ITA operations (linear part W.Rot(phi) to 1e-15, translation congruent mod 1 to W(x,y)+w to 1e-12, inside [-1/2,1/2)); plus equivalence of (x+-k, y+-k, phi+-2pi) to 1e-9 on the torus; plus histories on ONE reused state: 60 random set / reset / sampled-set operations through its own basis handles, placements checked against the coordinates the site holds after each; plus sites whose operations were built through the API (Transform2::identity(), ::new, From<Matrix3>) into hand-made Wyckoff sites, coordinates set through the handles or through JSON (also outside the cell), operation translations also unreduced (whole lattice vectors -3..3 added); plus the iterator protocol: positions() / relative_positions() / cartesian_positions() driven by random scripts of next, nth, take, size_hint and then count / last / step_by / skip / fold / collect, compared element for element with the collected sequence; non-trivial = group order >= 2 or a coordinate on/next to a face or special position; distinct by exact coordinate bits");
     let n = ctx.tier.pick(25_000u64, 3_000_000u64);
     let tpls: Vec<(String, Value)> = match groups::NAMES.iter().map(|g| template(g).map(|t| (g.to_string(), t))).collect::<Result<Vec<_>, _>>() {
         Ok(t) => t,
@@ -388,7 +392,7 @@ pub fn run(ctx: &Ctx) {
                     c2.x += c.dx as f64;
                     c2.y += c.dy as f64;
                 }
-                check_constructed(&c2, rng.gen_range(0, 6), st);
+                check_constructed(&c2, if rng.gen_bool(0.5) { rng.gen_range(0, 6) } else { rng.gen_range(6, 6 * 49 * 6) }, st);
             }
         }
         for _ in 0..(n / 200).max(20) {
